@@ -305,4 +305,9 @@ def gen_specs(chk: common.Check, nseq: int, nconc: int, with_modules: bool = Tru
         for tt in ([True, False] if i % 4 == 0 else [True]):
             specs.append({'source': src, 'policy': pol, 'trace_threads': tt, 'trace_modules': False, 'kind': 'conc', 'owners': owners,
                           'decoys': i % 3 == 0, 'run_no': 4, 'timeout': 40})
+    for i in range(max(1, nconc // 10)):
+        src, owners = progs.sequential_tasks(random.Random(rng.randrange(1 << 30)), rng.choice([6, 8, 10]))
+        for pol in ({'kind': 'all', 'command': 'next'}, {'kind': 'all', 'command': 'continue'}):
+            specs.append({'source': src, 'policy': pol, 'trace_threads': True, 'trace_modules': i % 2 == 1, 'kind': 'sequential-tasks', 'owners': owners,
+                          'decoys': False, 'run_no': 6, 'timeout': 40})
     return specs
